@@ -392,8 +392,13 @@ def _livepatch__function(old_func, new_func, modname, cache, visit_stack):
     for oldcell, newcell in zip(old_closure, new_closure):
         oldcellv = oldcell.cell_contents
         newcellv = newcell.cell_contents
-        livepatch(oldcellv, newcellv,
-                  modname=modname, cache=cache, visit_stack=visit_stack)
+        updated = livepatch(oldcellv, newcellv,
+                            modname=modname, cache=cache,
+                            visit_stack=visit_stack)
+        if updated is not oldcellv:
+            # The cell's value couldn't be livepatched in place; rebind the
+            # cell (shared by all closures over it) to the new value.
+            oldcell.cell_contents = updated
     return old_func
 
 
